@@ -1,13 +1,18 @@
+mod alloc;
 mod checks;
 mod codecs;
 mod e2e;
 mod engine;
+mod entries;
 mod httpdrv;
 mod models;
 mod udpdrv;
 mod wsdrv;
 
 use engine::{Ctx, Tier};
+
+#[global_allocator]
+static GLOBAL: alloc::Counting = alloc::Counting;
 
 fn usage() -> ! {
     eprintln!("usage: vcheck <Cxx> [--tier quick|thorough] [--seed N] [--replay FILE]");
@@ -46,6 +51,7 @@ fn table() -> Vec<Entry> {
         entry!("C09", c09, "exploration"),
         entry!("C10", c10, "exploration"),
         entry!("C11", c11, "exploration"),
+        entry!("C12", c12, "exploration"),
         entry!("C13", c13, "exploration"),
         entry!("C14", c14, "exploration"),
         entry!("C15", c15, "exploration"),
